@@ -88,7 +88,7 @@ def binop(R, E, op, a, b, node):
             for _ in range(b):
                 r = r * x
             return r
-        return R.pow_(E, x, y, node)
+        return R.pow_(E, x, z(y), node)
     raise Unsupported("binop %s" % type(op).__name__)
 
 
@@ -435,6 +435,8 @@ def setitem(R, E, base, idx, v, node):
         r = hook(E, base, idx, v, node)
         if r is not NotImplemented:
             return r
+    if is_num_like(base) or base is None:
+        E.raise_("TypeError", node, "safety")       # numbers and None do not support item assignment
     raise Unsupported("subscript store on %r at %s" % (base, E.where(node)))
 
 
